@@ -10,7 +10,9 @@ from props.c10 import atom_line, table_json, nprng, rand_rot
 ID = 'C18'
 LEVEL = 'proof'
 CLUSTER = 'D'
-GEN_UNITS = ['rodrigues', 'align', 'rotate', 'align_glue', 'transform_glue', '_align_along_axis', 'get_rotation_angle']
+GEN_UNITS = ['rodrigues', 'align', 'rotate', 'align_glue', 'transform_glue', '_align_along_axis', 'get_rotation_angle',
+             'align_pca', 'align_get_max_pca_vect', 'align_get_min_pca_vect', 'align_export_aligned', 'align_align_pca_vect', 'align_align',
+             'align_align_interface']   # the last seven: Gen/Align.lean (py/translate_ext_align.py)
 PIN_TARGETS = ['PdbVerif.Pins.D']
 RULE = ('structures of 8-40 atoms whose selected atoms form an anisotropic cloud with eigenvalue-gap ratio >= 1.05 at the relevant '
         'extreme (gaps from 1.05 to 50), the principal direction placed on a spherical grid of orientations (poles, coordinate axes and '
@@ -131,21 +133,27 @@ def rot_to_z(d):
     return np.eye(3) + math.sin(ang) * K + (1 - math.cos(ang)) * K @ K
 
 
-def contact_mask(X, chains, cutoff):
+def contact_mask(X, chains, cutoff, allchains=False):
+    """contact atoms of chains A and B, or (allchains) of every pair of different chains"""
     X = np.asarray(X, float)
-    A = [i for i, c in enumerate(chains) if c == 'A']; B = [i for i, c in enumerate(chains) if c == 'B']
-    D = np.linalg.norm(X[A][:, None] - X[B][None], axis=2)
-    if np.min(np.abs(D - cutoff)) < 1e-6:
-        return None
     m = [False] * len(X)
-    for ii, i in enumerate(A):
-        for jj, j in enumerate(B):
-            if D[ii, jj] <= cutoff:
-                m[i] = m[j] = True
+    ids = sorted(set(chains))
+    pairs = [(a, b) for k, a in enumerate(ids) for b in ids[k + 1:]] if allchains else [('A', 'B')]
+    for ca, cb in pairs:
+        A = [i for i, c in enumerate(chains) if c == ca]; B = [i for i, c in enumerate(chains) if c == cb]
+        D = np.linalg.norm(X[A][:, None] - X[B][None], axis=2)
+        if np.min(np.abs(D - cutoff)) < 1e-6:
+            return None
+        for ii, i in enumerate(A):
+            for jj, j in enumerate(B):
+                if D[ii, jj] <= cutoff:
+                    m[i] = m[j] = True
     return m
 
 
-def build_interface_case(rng, g, plane, export, source, theta, phi, gap):
+def build_interface_case(rng, g, plane, export, source, theta, phi, gap, three=False):
+    """three=True: a third chain C lies in the slab next to A and B and the call passes allchains=True (a keyword handed on to
+    get_contact_atoms): the contact atoms are then those of ALL chain pairs (round-4 seed C18-r4m2 fitted the plane to two chains only)"""
     cutoff = rng.choice([8.5, 6.0, 5.0])
     for _ in range(400):
         n = rng.choice([6, 10, 16])
@@ -157,15 +165,24 @@ def build_interface_case(rng, g, plane, export, source, theta, phi, gap):
         farB = np.column_stack([g.uniform(-9, 9, 4), g.uniform(-9, 9, 4), g.uniform(-25, -14, 4)])
         X = np.vstack([nearA, farA, nearB, farB])
         chains = ['A'] * (n + 4) + ['B'] * (n + 4)
-        m0 = contact_mask(X, chains, cutoff)
+        if three:
+            # chain C: a tilted sheet beside the slab, touching A and B at one edge (its contact atoms tilt the fitted plane)
+            nc = rng.choice([5, 8])
+            u = g.uniform(0.0, 1.0, nc)
+            nearC = np.column_stack([wx + 1.5 + 6.0 * u, g.uniform(-wy, wy, nc), -1.5 + 5.0 * u + g.uniform(-0.3, 0.3, nc)])
+            X = np.vstack([X, nearC])
+            chains = chains + ['C'] * nc
+        m0 = contact_mask(X, chains, cutoff, three)
         if m0 is None or sum(m0) < 4:
             continue
         Xc = X[np.array(m0)]
         w0, V0 = np.linalg.eigh(np.cov((Xc - Xc.mean(0)).T))
         X = (X - X.mean(0)) @ rot_to_z(V0[:, 0]).T          # the least-variance direction of the contact atoms is now exactly e_z
         X = np.round(orient_to(X, theta, phi, g) + g.uniform(-10, 10, size=3), 3)
-        mask = contact_mask(X, chains, cutoff)
+        mask = contact_mask(X, chains, cutoff, three)
         if mask != m0:
+            continue
+        if three and not any(mk and ch == 'C' for mk, ch in zip(mask, chains)):
             continue
         if mask is None or sum(mask) < 4:
             continue
@@ -177,8 +194,10 @@ def build_interface_case(rng, g, plane, export, source, theta, phi, gap):
     lines = [atom_line(k + 1, rng.choice([' CA ', ' C  ', ' N  ']), 'ALA', chains[i], 1 + k // 3, *X[i], temp=round(rng.uniform(0, 60), 2))
              for k, i in enumerate(idx)]
     kwargs = {} if cutoff == 8.5 else {'cutoff': cutoff}
+    if three:
+        kwargs['allchains'] = True
     return {'op': 'align', 'func': 'align_interface', 'lines': lines, 'mask': mask, 'axis': {'xy': 'z', 'xz': 'y', 'yz': 'x'}[plane],
-            'plane': plane, 'kwargs': kwargs, 'selkind': 'contacts', 'export': export, 'source': source, 'least': True,
+            'plane': plane, 'kwargs': kwargs, 'selkind': 'contacts-allchains' if three else 'contacts', 'export': export, 'source': source, 'least': True,
             'theta': theta, 'phi': phi, 'gap': float(gap_ratio(X[np.array(mask)], least=True)), 'family': 'align_interface'}
 
 
@@ -338,6 +357,10 @@ def cases(ctx):
             for export in (False, True):
                 theta, phi = grid[k % len(grid)]; k += 1
                 out.append(build_interface_case(rng, g, plane, export, 'object', theta, phi, rng.choice([1.2, 1.5, 4.0, 12.0])))
+    for rep in range(ctx.scale(2, 20)):
+        for plane in ('xy', 'xz', 'yz'):
+            theta, phi = grid[k % len(grid)]; k += 1
+            out.append(build_interface_case(rng, g, plane, False, 'object', theta, phi, rng.choice([1.2, 1.5, 4.0]), three=True))
     # random orientations off the grid
     for _ in range(ctx.scale(20, 1500)):
         theta, phi = math.acos(rng.uniform(-1, 1)), rng.uniform(-math.pi, math.pi)
@@ -601,3 +624,366 @@ def distribution(recs):
     gaps = [r['case']['gap'] for r in recs if r['case']['op'] == 'align']
     d['min_gap'] = min(gaps) if gaps else None
     return d
+
+
+# ==============================================================================================
+# BEGIN alignTie: translated align.py (tie #1) -- the real code vs the functions GENERATED from it (Gen/Align.lean)
+# ==============================================================================================
+
+def gen_align_checks(ctx):
+    """align / align_interface / align_pca_vect / export_aligned / pca / get_max_pca_vect / get_min_pca_vect: the real code and the Lean
+    functions `GenA.*` that py/translate_ext_align.py regenerates from align.py on every run (driver op `gen_align`) on the same inputs.
+    The world the generated functions take as parameters is what the harness observed while the real code ran: `np.linalg.eigh`'s
+    output (or exception), `np.linalg.norm`, `np.arctan2`, `np.arccos`, `np.cos`, `np.sin` as finite tables keyed by the EXACT
+    rational argument (computed here with fractions the way the generated code computes it), `np.pi`; `np.cov` is exact in Lean
+    and compared with NumPy's.  Required: same exception class, same table (coordinates to 1e-9 of the scale, every other column
+    identical), same exported file names and contents (files: 3 decimals)."""
+    import json, warnings
+    import vlib
+    rng = ctx.rng
+    g = nprng(rng)
+    F = Fraction
+    PI = float(np.pi)
+    work = os.path.join(ctx.tmpdir(), 'gen_align')
+    os.makedirs(work, exist_ok=True)
+    cwd = os.getcwd()
+
+    def observe(fn):
+        """run fn() with np.cov / np.linalg.eigh / get_rotation_angle / pca recorded"""
+        rec = {'cov': [], 'eigh': [], 'gra': [], 'pca': []}
+        cov0, eigh0, gra0, pca0 = np.cov, np.linalg.eigh, AL.get_rotation_angle, AL.pca
+
+        def cov(m, *a, **k):
+            r = cov0(m, *a, **k)
+            rec['cov'].append((np.array(m, float), np.array(r, float)))
+            return r
+
+        def eigh(m, *a, **k):
+            try:
+                r = eigh0(m, *a, **k)
+            except Exception as e:
+                rec['eigh'].append(exc_tag(e))
+                raise
+            rec['eigh'].append((np.array(r[0], float), np.array(r[1], float)))
+            return r
+
+        def gra(v):
+            r = gra0(v)
+            try:
+                rec['gra'].append((np.array(v, float).reshape(3), float(r[0]), float(r[1])))
+            except Exception:
+                pass
+            return r
+
+        def pca(m):
+            rec['pca'].append(np.array(m, float))
+            return pca0(m)
+        np.cov, np.linalg.eigh, AL.get_rotation_angle, AL.pca = cov, eigh, gra, pca
+        try:
+            with warnings.catch_warnings():
+                warnings.simplefilter('ignore')
+                try:
+                    return rec, fn()
+                except Exception as e:
+                    return rec, exc_tag(e)
+        finally:
+            np.cov, np.linalg.eigh, AL.get_rotation_angle, AL.pca = cov0, eigh0, gra0, pca0
+
+    def world(rec):
+        """the observed values as driver fields"""
+        d = {'pi': rat(PI)}
+        if rec['eigh']:
+            e = rec['eigh'][-1]
+            if isinstance(e, str):
+                d['eig_err'] = e
+            elif np.all(np.isfinite(e[0])) and np.all(np.isfinite(e[1])) and e[0].shape == (3,) and e[1].shape == (3, 3):
+                d['eig_u'] = [rat(x) for x in e[0]]
+                d['eig_V'] = [rat(x) for x in e[1].ravel()]
+            else:
+                d['eig_err'] = 'not finite'
+        if rec['gra']:
+            v, phi, theta = rec['gra'][-1]
+            if np.all(np.isfinite(v)) and math.isfinite(phi) and math.isfinite(theta):
+                r = float(np.linalg.norm(v))
+                d['norm'] = [[rat(v[0]), rat(r)]]
+                d['arctan2'] = [[rat(v[1]), rat(phi)]]
+                if r != 0:
+                    q = F(float(v[2])) / F(r)
+                    d['arccos'] = [[rat(q), rat(theta)]]
+                fp, ft, fpi = F(phi), F(theta), F(PI)
+                keys = [-fp, fpi / 2 - ft, fpi / 2 - fp, ft - fpi / 2, -ft]
+                vals = [-phi, np.pi / 2 - theta, np.pi / 2 - phi, theta - np.pi / 2, -theta]
+                cs, sn = {}, {}
+                for k, a in zip(keys, vals):       # equal keys denote equal real angles up to one rounding: first one wins, as in the driver
+                    cs.setdefault(k, float(np.cos(a))); sn.setdefault(k, float(np.sin(a)))
+                d['cos'] = [[rat(k), rat(v_)] for k, v_ in cs.items()]
+                d['sin'] = [[rat(k), rat(v_)] for k, v_ in sn.items()]
+        return d
+
+    def table_of(db):
+        return table_json(db.get('*'))
+
+    def close(a, b, tol, scale):
+        return abs(unrat(a) - unrat(b)) <= tol * scale
+
+    def cmp_tables(real, gen, tol):
+        if len(real) != len(gen):
+            return f'row counts differ: real {len(real)}, generated {len(gen)}'
+        scale = max([F(1)] + [abs(unrat(r[k])) for r in gen for k in (7, 8, 9)])
+        for i, (a, b) in enumerate(zip(real, gen)):
+            for k in range(14):
+                if k in (7, 8, 9):
+                    if not close(a[k], b[k], tol, scale):
+                        return f'row {i} column {k}: real {float(unrat(a[k]))!r}, generated {float(unrat(b[k]))!r}'
+                elif (unrat(a[k]) if k in (10, 11) else a[k]) != (unrat(b[k]) if k in (10, 11) else b[k]):
+                    return f'row {i} column {k}: real {a[k]!r}, generated {b[k]!r}'
+        return None
+
+    def new_files(before):
+        return sorted(set(os.listdir('.')) - before)
+
+    def read_files(names):
+        out = []
+        for n in names:
+            try:
+                out.append([n, table_json(pdb2sql(n).get('*'))])
+            except Exception as e:
+                out.append([n, 'unreadable: ' + exc_tag(e)])
+        return out
+
+    lines_d, meta = [], []
+
+    def add(line, real, what):
+        lines_d.append(line); meta.append((what, real))
+
+    # ---- whole calls: align / align_interface ---------------------------------------------------
+    def whole(c, kwargs=None, axis=None, plane=None, tag=None):
+        kwargs = dict(c['kwargs']) if kwargs is None else kwargs
+        sub = os.path.join(work, 'w%d' % len(lines_d))
+        os.makedirs(sub, exist_ok=True)
+        os.chdir(sub)
+        try:
+            cls = interface if c['func'] == 'align_interface' else pdb2sql
+            if c['source'] == 'file':
+                with open('mol1.pdb', 'w') as f:
+                    f.write('\n'.join(c['lines']) + '\n')
+                src, ref = 'mol1.pdb', cls('mol1.pdb')
+            else:
+                src = ref = cls(c['lines'])
+            before = ref.get('*')
+            pdbfile = ref.pdbfile if isinstance(ref.pdbfile, str) else None
+            files0 = set(os.listdir('.'))
+            if c['func'] == 'align':
+                ax = c['axis'] if axis is None else axis
+                rec, res = observe(lambda: AL.align(src, axis=ax, export=c['export'], **kwargs))
+                try:
+                    sel = ref.get('rowID', **kwargs)
+                except Exception:
+                    sel = []
+                mask = [i in set(sel) for i in range(len(before))]
+                line = {'op': 'gen_align', 'func': 'align', 'axis': ax, 'sel': mask}
+            else:
+                pl = c['plane'] if plane is None else plane
+                rec, res = observe(lambda: AL.align_interface(src, plane=pl, export=c['export'], **kwargs))
+                line = {'op': 'gen_align', 'func': 'align_interface', 'plane': pl}
+                for k, v in kwargs.items():
+                    line[k] = rat(F(str(v))) if k == 'cutoff' else v
+            line.update({'db': table_json(before), 'pdbfile': pdbfile, 'is_object': c['source'] != 'file', 'export': c['export']})
+            line.update(world(rec))
+            if isinstance(res, str):
+                real = {'error': res, 'files': new_files(files0)}
+                if c['source'] != 'file':
+                    real['table_after'] = table_of(ref)
+            else:
+                nf = new_files(files0)
+                real = {'table': table_of(res), 'files': read_files(nf), 'pdbfile': res.pdbfile if isinstance(res.pdbfile, str) else None,
+                        'same_object': (res is src) if c['source'] != 'file' else None}
+            add(line, real, tag or c['family'])
+        finally:
+            os.chdir(cwd)
+
+    grid = list(GRID)
+    rng.shuffle(grid)
+    k = 0
+    for rep in range(ctx.scale(1, 8)):
+        for axis in ('x', 'y', 'z'):
+            for selkind in ('all', 'chain', 'name'):
+                theta, phi = grid[k % len(grid)]; k += 1
+                c = build_align_case(rng, g, axis, selkind, rep % 2 == 0 or rng.random() < 0.5, rng.choice(['file', 'object']), theta, phi,
+                                     rng.choice([1.08, 1.3, 2.0, 5.0, 50.0]))
+                whole(c)
+        for plane in ('xy', 'xz', 'yz'):
+            theta, phi = grid[k % len(grid)]; k += 1
+            c = build_interface_case(rng, g, plane, rng.random() < 0.5, rng.choice(['file', 'object']), theta, phi, rng.choice([1.5, 4.0, 12.0]))
+            extra = rng.choice([{}, {}, {'return_contact_pairs': True}, {'extend_to_residue': True}, {'allchains': True},
+                                {'chain1': 'B', 'chain2': 'A'}, {'only_backbone_atoms': True}])
+            kw = dict(c['kwargs']); kw.update(extra)
+            whole(c, kwargs=kw, tag='align_interface' + (':' + next(iter(extra)) if extra else ''))
+    # structures in a plane / rods, tilted and small selections (boundaries of the angle extraction, few atoms)
+    for axis in ('x', 'y', 'z'):
+        whole(build_flat_case(rng, g, axis, rng.uniform(-math.pi, math.pi), 4.0, rod=rng.random() < 0.5))
+        whole(build_tilted_case(rng, g, axis, rng.choice([0.0, 1e-3]), least=False))
+    for _ in range(ctx.scale(2, 10)):
+        theta, phi = math.acos(rng.uniform(-1, 1)), rng.uniform(-math.pi, math.pi)
+        whole(build_small_align_case(rng, g, rng.choice('xyz'), rng.choice([2, 3, 4]), rng.choice(['residue', 'ca']), theta, phi))
+        whole(build_small_interface_case(rng, g, rng.choice(['xy', 'xz', 'yz']), rng.choice([3, 4]), theta, phi))
+    # error paths
+    for rep in range(ctx.scale(1, 4)):
+        theta, phi = grid[k % len(grid)]; k += 1
+        c = build_align_case(rng, g, 'x', 'chain', rng.random() < 0.5, rng.choice(['file', 'object']), theta, phi, 3.0)
+        whole(c, axis=rng.choice(['w', 'X', '', 'xy']), tag='bad axis')
+        whole(c, kwargs={'chainID': 'Q'}, tag='empty selection')
+        whole(c, kwargs={'rowID': [rng.randrange(len(c['lines']))]}, tag='one atom selected')
+        ci = build_interface_case(rng, g, 'xy', rng.random() < 0.5, 'object', theta, phi, 4.0)
+        whole(ci, plane=rng.choice(['zz', 'x', 'yx', '']), tag='bad plane')
+        whole(ci, kwargs={'cutoff': 0.05}, tag='no contact')
+        whole(ci, kwargs={'chain1': 'Q'}, tag='unknown chain')
+
+    # ---- align_pca_vect directly ------------------------------------------------------------------
+    for rep in range(ctx.scale(4, 30)):
+        c = build_align_case(rng, g, 'x', 'all', False, 'object', 1.0, 1.0, 3.0)
+        db = pdb2sql(c['lines'])
+        before = db.get('*')
+        v = g.normal(size=3) * rng.choice([1.0, 1e-3, 50.0])
+        if rep % 5 == 0:
+            v[rng.randrange(3)] = 0.0
+        if rep % 7 == 0:
+            v = np.array([0.0, 0.0, rng.choice([1.0, -2.0])])
+        ax = 'q' if rep % 4 == 3 else rng.choice(['x', 'y', 'z'])
+        rec, res = observe(lambda: AL.align_pca_vect(db, v, ax))
+        line = {'op': 'gen_align', 'func': 'align_pca_vect', 'axis': ax, 'db': table_json(before), 'vect': [rat(x) for x in v]}
+        line.update(world(rec))
+        real = {'error': res, 'table_after': table_of(db)} if isinstance(res, str) else {'table': table_of(res), 'same_object': res is db}
+        add(line, real, 'align_pca_vect')
+
+    # ---- export_aligned: the file name ----------------------------------------------------------
+    names = ['mol1.pdb', 'a.b.pdb', 'pdb.pdb', 'model', 'decoy.pdbb', 'x.pdb.pdb', 'bdp', 'complex_1.ent', 'ab.pd', None, 'p', '1AK4.PDB']
+    for nm in names[:ctx.scale(6, 12)] if not ctx.thorough else names:
+        c = build_align_case(rng, g, 'x', 'all', False, 'object', 1.0, 1.0, 3.0)
+        sub = os.path.join(work, 'e%d' % len(lines_d))
+        os.makedirs(sub, exist_ok=True)
+        os.chdir(sub)
+        try:
+            db = pdb2sql(c['lines'])
+            if nm is not None:
+                db.pdbfile = nm
+            files0 = set(os.listdir('.'))
+            rec, res = observe(lambda: AL.export_aligned(db))
+            real = {'error': res} if isinstance(res, str) else {'files': read_files(new_files(files0))}
+            add({'op': 'gen_align', 'func': 'export_aligned', 'db': table_of(db), 'pdbfile': nm}, real, 'export_aligned')
+        finally:
+            os.chdir(cwd)
+
+    # ---- pca / get_max_pca_vect / get_min_pca_vect --------------------------------------------------
+    for rep in range(ctx.scale(10, 80)):
+        n = [0, 1, 2, 3, 4, 7, 20][rep % 7]
+        X = np.round(g.normal(size=(n, 3)) * g.uniform(0.5, 9, size=3) + g.uniform(-30, 30, size=3), 3)
+        xyz = np.array([list(map(float, r)) for r in X]) if n else np.array([])
+        rec, res = observe(lambda: AL.pca(xyz))
+        line = {'op': 'gen_align', 'func': 'pca', 'xyz': [[rat(x) for x in r] for r in X]}
+        line.update(world(rec))
+        real = {'pca': res if isinstance(res, str) else [[rat(x) for x in res[0]], [rat(x) for x in np.array(res[1]).ravel()]],
+                'cov': [rat(x) for x in rec['cov'][-1][1].ravel()] if rec['cov'] and np.all(np.isfinite(rec['cov'][-1][1])) else None}
+        # the selection of the extreme eigenvector, with ties: a synthetic decomposition handed to get_max / get_min through `pca`
+        u = [float(rng.choice([-1.0, 0.0, 0.5, 2.0, 2.0, 3.5])) for _ in range(3)]
+        V = np.round(g.normal(size=(3, 3)), 3)
+        pca0 = AL.pca
+        AL.pca = lambda m: (np.array(u), V)
+        try:
+            real['max'] = [rat(x) for x in AL.get_max_pca_vect(xyz)]
+            real['min'] = [rat(x) for x in AL.get_min_pca_vect(xyz)]
+        finally:
+            AL.pca = pca0
+        line2 = dict(line); line2.update({'eig_u': [rat(x) for x in u], 'eig_V': [rat(x) for x in V.ravel()]}); line2.pop('eig_err', None)
+        add(line, real, 'pca')
+        add(line2, {'sel': True, 'max': real['max'], 'min': real['min'], 'n': n}, 'pca-select')
+
+    # ---- through the driver -----------------------------------------------------------------------
+    try:
+        ans = vlib.run_driver(lines_d, which='model', cluster=CLUSTER) if lines_d else []
+    except Exception as e:
+        return [{'name': 'generated align.py: model driver not available (' + repr(e)[:120] + ')', 'ok': True, 'case': None, 'detail': 'skipped'}]
+    bad, stats = None, {}
+    TOLR = F(1, 10**9)
+
+    def short(line):
+        return {k: (v if not isinstance(v, list) or len(v) < 8 else v[:8] + ['...']) for k, v in line.items()}
+
+    for line, (what, real), a in zip(lines_d, meta, ans):
+        m = a.get('model')
+        why = None
+        if isinstance(m, dict) and 'driver_error' in m:
+            why = 'driver error: ' + str(m['driver_error'])
+        elif line['func'] in ('align', 'align_interface', 'align_pca_vect'):
+            if 'error' in real:
+                tag = what + ':' + real['error']
+                if m != real['error']:
+                    why = f'real code raised {real["error"]}, generated: {str(m)[:80]}'
+                elif real.get('files'):
+                    why = f'real code raised {real["error"]} after writing {real["files"]}'
+                elif 'table_after' in real and real['table_after'] != line['db']:
+                    why = f'real code raised {real["error"]} after changing the table'
+            else:
+                tag = what + ':ok'
+                if isinstance(m, str):
+                    why = f'real code returned, generated: {m[:80]}'
+                else:
+                    why = cmp_tables(real['table'], m['db']['table'], TOLR)
+                    if why is None and real.get('same_object') is False:
+                        why = 'the real code returned another object than the one it was given'
+                    if why is None and 'files' in m:
+                        rf, gf = real['files'], m['files']
+                        if [f[0] for f in rf] != [f[0] for f in gf]:
+                            why = f'files written: real {[f[0] for f in rf]}, generated {[f[0] for f in gf]}'
+                        else:
+                            for (n1, t1), (_, t2) in zip(rf, gf):
+                                w2 = t1 if isinstance(t1, str) else cmp_tables(t1, t2, F(6, 10**4) / max(F(1), max([abs(unrat(r[k])) for r in t2 for k in (7, 8, 9)] + [F(1)])))
+                                if w2:
+                                    why = f'file {n1}: {w2}'
+                    if why is None and line['func'] != 'align_pca_vect' and (real.get('pdbfile') != m['db']['pdbfile']):
+                        why = f'pdbfile of the returned object: real {real.get("pdbfile")!r}, generated {m["db"]["pdbfile"]!r}'
+        elif line['func'] == 'export_aligned':
+            tag = what
+            if 'error' in real:
+                why = None if m == real['error'] else f'real code raised {real["error"]}, generated: {str(m)[:80]}'
+            elif isinstance(m, str):
+                why = f'real code returned, generated: {m[:80]}'
+            elif [f[0] for f in real['files']] != [f[0] for f in m['files']]:
+                why = f'files written: real {[f[0] for f in real["files"]]}, generated {[f[0] for f in m["files"]]}'
+        elif real.get('sel'):
+            tag = what
+            for kk in ('max', 'min'):
+                if real['n'] == 0:
+                    # get_max_pca_vect(np.array([])) with `pca` replaced: the replacement hides pca's exception; the generated code raises it
+                    continue
+                if m[kk] != real[kk]:
+                    why = f'get_{kk}_pca_vect: real {real[kk]}, generated {m[kk]}'
+        else:
+            tag = what + ':' + (real['pca'] if isinstance(real['pca'], str) else 'ok')
+            if isinstance(real['pca'], str) or isinstance(m['pca'], str):
+                if m['pca'] != real['pca'] and not (isinstance(real['pca'], list) and isinstance(m['pca'], str) and 'UNMODELLED' in m['pca']):
+                    why = f'pca: real {str(real["pca"])[:60]}, generated {str(m["pca"])[:60]}'
+            elif m['pca']['u'] != real['pca'][0] or m['pca']['V'] != real['pca'][1]:
+                why = 'pca does not return what eigh returned'
+            if why is None and real['cov'] is not None and not isinstance(m['cov'], str):
+                sc = max([F(1)] + [abs(unrat(x)) for x in m['cov']])
+                if any(abs(unrat(x) - unrat(y)) > TOLR * sc for x, y in zip(real['cov'], m['cov'])):
+                    why = f'the matrix handed to eigh: real {[float(unrat(x)) for x in real["cov"]]}, generated {[float(unrat(x)) for x in m["cov"]]}'
+        stats[tag] = stats.get(tag, 0) + 1
+        if why and bad is None:
+            bad = {'what': what, 'why': why, 'driver_line': short(line)}
+    nerr = sum(v for t, v in stats.items() if ':ERR' in t)
+    nok = sum(v for t, v in stats.items() if t.endswith(':ok'))
+    return [{'name': f'align.py = its translation (Gen/Align.lean): align, align_interface, align_pca_vect, export_aligned, pca, get_max/min_pca_vect on '
+                     f'{len(lines_d)} inputs ({nerr} exceptions; outcomes {dict(sorted(stats.items()))})',
+             'ok': bad is None and len(lines_d) > 40 and nerr >= 6 and nok >= 20, 'case': bad,
+             'detail': (bad or {}).get('why', 'driver op gen_align runs GenA.* with the observed eigen-decomposition / trig values; tables to 1e-9, files to 3 decimals'),
+             'kind': 'gen-align'}]
+
+
+def extra_checks(ctx):
+    return gen_align_checks(ctx)
+
+# ==============================================================================================
+# END alignTie
+# ==============================================================================================
